@@ -313,6 +313,9 @@ def main(argv):
             replay = argv[i + 1]; i += 2
         else:
             i += 1
+    if tier not in ("quick", "thorough"):
+        log(f"unknown tier {tier}")
+        return 2
     seed = int(os.environ.get("VERIF_SEED", "1"))
     if prop not in REGISTRY:
         log(f"unknown property {prop}")
